@@ -34,6 +34,9 @@ UTypes ==
             bad   |-> FD(S, <<>>),
             echo  |-> FD(S, <<AD("s", S), AD("b", B), AD("i", I)>>),
             need  |-> FD(S, <<AD("x", NonNull(S))>>),
+            pv    |-> FD(Named("P"), <<>>),                \* the same node: as a Go struct VALUE here (reflection strategy),
+            pp    |-> FD(Named("Named"), <<>>),            \* as a pointer to that struct here
+            ps    |-> FD(ListOf(Named("Named")), <<>>),
             obj   |-> FD(S, <<AD("in", Named("In")), AD("l", ListOf(S)), AD("ins", ListOf(Named("In"))), AD("ll", ListOf(ListOf(S)))>>) ] ],
     In |->
       [ kind |-> "INPUT_OBJECT", ifaces |-> <<>>, members |-> <<>>, fields |-> [x \in {} |-> 0],
@@ -72,12 +75,16 @@ UTypes ==
     C |->
       [ kind |-> "OBJECT", ifaces |-> <<>>, members |-> <<>>,
         fields |-> [ only |-> FD(S, <<>>) ] ],
+    \* realised by reflection as a Go struct with exported FIELDS (not methods), met both as a value and through a pointer
+    P |->
+      [ kind |-> "OBJECT", ifaces |-> <<"Named">>, members |-> <<>>,
+        fields |-> [ name |-> FD(S, <<>>), peer |-> FD(Named("Named"), <<>>), say |-> FD(S, <<>>), n |-> FD(I, <<>>) ] ],
     Any |->
       [ kind |-> "UNION", ifaces |-> <<>>, members |-> <<"A", "B">>, fields |-> [x \in {} |-> 0] ],
     Solo |->       \* a union that holds only one of the implementors of Named
-      [ kind |-> "UNION", ifaces |-> <<>>, members |-> <<"A">>, fields |-> [x \in {} |-> 0] ] ]
+      [ kind |-> "UNION", ifaces |-> <<>>, members |-> <<"A", "P">>, fields |-> [x \in {} |-> 0] ] ]
 
-UNodeType == [ q |-> "Query", m |-> "Mutation", a1 |-> "A", a2 |-> "A", b1 |-> "B" ]
+UNodeType == [ q |-> "Query", m |-> "Mutation", a1 |-> "A", a2 |-> "A", b1 |-> "B", p1 |-> "P" ]
 
 UData ==
   [ q  |-> [ title |-> StrV("T"), a |-> NodeV("a1"), nul |-> NullV,
@@ -90,7 +97,8 @@ UData ==
              need2 |-> V("echo", 0),
              bad   |-> ErrV("bad fails"),
              echo  |-> V("echo", 0),
-             need  |-> V("echo", 0), obj |-> V("echo", 0) ],
+             need  |-> V("echo", 0), obj |-> V("echo", 0),
+             pv |-> NodeV("p1"), pp |-> NodeV("p1"), ps |-> ListV(<<NodeV("p1"), NodeV("b1"), NodeV("p1")>>) ],
     m  |-> [ set |-> V("echo", 0), a |-> NodeV("a2") ],
     a1 |-> [ name |-> StrV("a1"), n |-> IntV(1), peer |-> NodeV("b1"), self |-> NodeV("a1"),
              kids |-> ListV(<<NodeV("a2")>>), boom |-> ErrV("boom fails"), many |-> V("errs", 2), half |-> V("errval", "part"), nest |-> V("errsn", 2), say |-> V("echo", 0),
@@ -98,10 +106,12 @@ UData ==
     a2 |-> [ name |-> StrV("a2"), n |-> IntV(2), peer |-> NodeV("b1"), self |-> NodeV("a2"),
              kids |-> ListV(<<>>), boom |-> ErrV("boom fails"), many |-> V("errs", 3), half |-> V("errval", "part"), nest |-> V("errsn", 1), say |-> V("echo", 0),
              wrong |-> StrV("n/a"), flags |-> ListV(<<>>), tag |-> V("echo", 0) ],
-    b1 |-> [ name |-> StrV("b1"), flag |-> BoolV(TRUE), peer |-> NodeV("a1"), say |-> V("echo", 0) ] ]
+    b1 |-> [ name |-> StrV("b1"), flag |-> BoolV(TRUE), peer |-> NodeV("a1"), say |-> V("echo", 0) ],
+    p1 |-> [ name |-> StrV("p1"), peer |-> NullV, say |-> StrV("hi"), n |-> IntV(5) ] ]
 
 UExec == [ types |-> UTypes, nodeType |-> UNodeType, data |-> UData,
-           roots |-> [ query |-> "q", mutation |-> "m" ], nth |-> {} ]
+           roots |-> [ query |-> "q", mutation |-> "m" ], nth |-> {},
+           silent |-> {"P"} ]      \* types whose fields are read without a resolver call on the reflection strategy: their calls are not compared
 
 \* ---- U-top: the query root type is NOT called Query (schema { query: Top }) and an ordinary object type IS
 NoFields == [x \in {} |-> 0]
